@@ -219,6 +219,104 @@ pub fn verify<X: HS, E: FieldElement<BaseField = <X::S as Spec>::B>>(
     }
 }
 
+/// A channel written against the public `VerifierChannel` trait with only its REQUIRED methods (the
+/// provided `read_layer_queries` / `read_remainder` are inherited): what a downstream verifier (such
+/// as the STARK verifier's own channel) looks like. The FRI verifier has to reject bad proofs through
+/// any such channel, not only through `DefaultVerifierChannel`.
+pub struct ThinChannel<X: HS, E: FieldElement> {
+    commitments: Vec<<X::H as Hasher>::Digest>,
+    proofs: Vec<winter_crypto::BatchMerkleProof<X::H>>,
+    queries: Vec<Vec<E>>,
+    remainder: Vec<E>,
+    partitions: usize,
+}
+impl<X: HS, E: FieldElement<BaseField = <X::S as Spec>::B>> ThinChannel<X, E> {
+    pub fn new(proof: FriProof, commitments: Vec<<X::H as Hasher>::Digest>, domain: usize, folding: usize) -> Result<Self, String> {
+        let partitions = proof.num_partitions();
+        let remainder = proof.parse_remainder::<E>().map_err(|e| format!("{e}"))?;
+        let (queries, proofs) = proof.parse_layers::<E, X::H, MerkleTree<X::H>>(domain, folding).map_err(|e| format!("{e}"))?;
+        Ok(ThinChannel { commitments, proofs, queries, remainder, partitions })
+    }
+}
+impl<X: HS, E: FieldElement<BaseField = <X::S as Spec>::B>> winter_fri::VerifierChannel<E> for ThinChannel<X, E> {
+    type Hasher = X::H;
+    type VectorCommitment = MerkleTree<X::H>;
+    fn read_fri_num_partitions(&self) -> usize {
+        self.partitions
+    }
+    fn read_fri_layer_commitments(&mut self) -> Vec<<X::H as Hasher>::Digest> {
+        self.commitments.drain(..).collect()
+    }
+    fn take_next_fri_layer_proof(&mut self) -> winter_crypto::BatchMerkleProof<X::H> {
+        self.proofs.remove(0)
+    }
+    fn take_next_fri_layer_queries(&mut self) -> Vec<E> {
+        self.queries.remove(0)
+    }
+    fn take_fri_remainder(&mut self) -> Vec<E> {
+        self.remainder.clone()
+    }
+}
+
+/// `verify_with_bound` through the thin channel
+pub fn verify_thin<X: HS, E: FieldElement<BaseField = <X::S as Spec>::B>>(
+    p: &Params,
+    declared_bound: usize,
+    proof: FriProof,
+    commitments: &[<X::H as Hasher>::Digest],
+    evaluations_at_positions: &[E],
+    positions: &[usize],
+) -> Verdict {
+    let r = catch(|| {
+        let mut coin = Coin::<X>::new(&[]);
+        let mut channel = match ThinChannel::<X, E>::new(proof, commitments.to_vec(), p.domain(), p.folding) {
+            Ok(c) => c,
+            Err(e) => return Verdict::ChannelError(e),
+        };
+        let verifier = match FriVerifier::new(&mut channel, &mut coin, p.options(), declared_bound) {
+            Ok(v) => v,
+            Err(e) => return Verdict::Reject(e),
+        };
+        match verifier.verify(&mut channel, evaluations_at_positions, positions) {
+            Ok(()) => Verdict::Accept,
+            Err(e) => Verdict::Reject(e),
+        }
+    });
+    match r {
+        Ok(v) => v,
+        Err(pn) => Verdict::Panic(pn),
+    }
+}
+
+/// Verifies through BOTH channels (DefaultVerifierChannel and the thin one) and merges the verdicts
+/// against the caller's expectation: when acceptance is expected the first non-accepting verdict is
+/// returned, when rejection is expected an acceptance (or a panic) through either channel wins.
+pub fn verify_all<X: HS, E: FieldElement<BaseField = <X::S as Spec>::B>>(
+    p: &Params,
+    declared_bound: usize,
+    proof: FriProof,
+    commitments: &[<X::H as Hasher>::Digest],
+    evaluations_at_positions: &[E],
+    positions: &[usize],
+    expect_accept: bool,
+) -> Verdict {
+    let a = verify_with_bound::<X, E>(p, declared_bound, proof.clone(), commitments, evaluations_at_positions, positions);
+    let b = verify_thin::<X, E>(p, declared_bound, proof, commitments, evaluations_at_positions, positions);
+    if expect_accept {
+        if a.accepted() {
+            b
+        } else {
+            a
+        }
+    } else if a.accepted() || matches!(a, Verdict::Panic(_)) {
+        a
+    } else if b.accepted() || matches!(b, Verdict::Panic(_)) {
+        b
+    } else {
+        a
+    }
+}
+
 /// Like `verify`, but the verifier is told `declared_bound` instead of the bound the proof was built
 /// for (same domain as long as next_power_of_two(declared_bound) = bound + 1).
 pub fn verify_with_bound<X: HS, E: FieldElement<BaseField = <X::S as Spec>::B>>(
